@@ -36,7 +36,7 @@ TECHNIQUE = "Hypothesis op-sequence generation vs. plain-Python model of store/f
 LEVEL_TEXT = ("generated-input search over operation histories with a reference model; all invariants of the statement "
               "checked after every step; not exhaustive")
 LEVEL_NOTE = "trusts sortedcontainers, mitmproxy.test.tflow builders, flow attribute accessors"
-QUICK_N, THOROUGH_N = 16_000, 800_000
+QUICK_N, THOROUGH_N = 7_000, 800_000
 BUDGET_S = (300, 7200)
 
 NPOOL = 8
